@@ -32,6 +32,8 @@ val sub : nat -> nat -> nat
 
 val max : nat -> nat -> nat
 
+val eqb : bool -> bool -> bool
+
 module Nat :
  sig
   val eqb : nat -> nat -> bool
@@ -50,6 +52,8 @@ val nth : nat -> 'a1 list -> 'a1 -> 'a1
 val nth_error : 'a1 list -> nat -> 'a1 option
 
 val rev : 'a1 list -> 'a1 list
+
+val concat : 'a1 list list -> 'a1 list
 
 val map : ('a1 -> 'a2) -> 'a1 list -> 'a2 list
 
@@ -80,6 +84,10 @@ type positive =
 | XO of positive
 | XH
 
+type n =
+| N0
+| Npos of positive
+
 type z =
 | Z0
 | Zpos of positive
@@ -108,6 +116,17 @@ module Pos :
   val to_nat : positive -> nat
 
   val of_succ_nat : nat -> positive
+ end
+
+module N :
+ sig
+  val add : n -> n -> n
+
+  val mul : n -> n -> n
+
+  val compare : n -> n -> comparison
+
+  val ltb : n -> n -> bool
  end
 
 module Z :
@@ -148,6 +167,15 @@ module Z :
 
   val modulo : z -> z -> z
  end
+
+type ascii =
+| Ascii of bool * bool * bool * bool * bool * bool * bool * bool
+
+val eqb0 : ascii -> ascii -> bool
+
+val n_of_digits : bool list -> n
+
+val n_of_ascii : ascii -> n
 
 type rule = { lhs : nat; rhs : nat list }
 
@@ -346,7 +374,7 @@ val disp : nat -> (nat -> nat -> z) -> nat list -> (nat * nat) list
 
 val slots : nat -> (nat -> nat -> z) -> nat list -> slot list
 
-val n : nat -> (nat -> nat -> z) -> nat list -> nat
+val n0 : nat -> (nat -> nat -> z) -> nat list -> nat
 
 val tarr : nat -> (nat -> nat -> z) -> nat list -> z list
 
@@ -606,3 +634,153 @@ type tagc =
 | New
 
 val predict : step option -> tagc option
+
+type name = ascii list
+
+val name_eqb : name -> name -> bool
+
+val name_leb : name -> name -> bool
+
+val ins_name : name -> name list -> name list
+
+val sort_names : name list -> name list
+
+type idtyp =
+| TermId
+| NontermId
+
+type ident = { i_name : name; i_typ : idtyp; i_value : z; i_tag : name;
+               i_alias : name }
+
+type assoc_kw =
+| ALeft
+| ARight
+| ANon
+
+type precdef = { pd_assoc : assoc_kw; pd_name : name }
+
+type declnode = { d_code : ascii list; d_tokens : ident list list;
+                  d_precs : precdef list list; d_types : (name * name) list;
+                  d_union : ascii list; d_start : name }
+
+type relem =
+| RSym of name
+| RAct of ascii list
+
+type ruledef = { r_line : nat; r_lhs : name; r_rhs : relem list; r_prec : name }
+
+type ast = { a_decl : declnode; a_rules : ruledef list; a_rest : ascii list }
+
+type idtab = ident list
+
+val tab_find : idtab -> name -> ident option
+
+val tab_update : idtab -> name -> (ident -> ident) -> idtab
+
+val tab_has : idtab -> name -> bool
+
+val tab_names : idtab -> name list
+
+val is_nil : 'a1 list -> bool
+
+type dstate = { ds_tab : idtab; ds_max : z; ds_precidx : nat;
+                ds_prelist : ((nat * assoc_kw) * name) list }
+
+type front_error =
+| FPrecUnknown of name
+| FUndefined of name
+| FNoRule of name
+| FNoStart
+| FUnproductive of nat list
+| FTooMany
+
+val merge_token : ident -> ident -> ident
+
+val add_token : dstate -> ident -> dstate
+
+val add_type : dstate -> (name * name) -> dstate
+
+val add_prec_line :
+  idtab -> nat -> precdef list -> ((nat * assoc_kw) * name) list ->
+  (front_error, ((nat * assoc_kw) * name) list) sum
+
+val add_precs : dstate -> precdef list list -> (front_error, dstate) sum
+
+val number_auto : idtab -> z -> name list -> idtab * z
+
+val visit_decl : declnode -> (front_error, dstate) sum
+
+val pre_find :
+  ((nat * assoc_kw) * name) list -> name -> ((nat * assoc_kw) * name) option
+  -> ((nat * assoc_kw) * name) option
+
+val pre_map :
+  ((nat * assoc_kw) * name) list -> name -> ((nat * assoc_kw) * name) option
+
+type vrule = { v_line : nat; v_lhs : name; v_rhs : name list;
+               v_prec : name option; v_action : ascii list }
+
+val add_lhs : idtab -> z -> ruledef list -> idtab * z
+
+val scan_rhs :
+  idtab -> ((nat * assoc_kw) * name) list -> relem list -> name list -> name
+  option -> ascii list -> (front_error, (name list * name option) * ascii
+  list) sum
+
+val visit_rule :
+  idtab -> ((nat * assoc_kw) * name) list -> ruledef -> (front_error, vrule)
+  sum
+
+val visit_rules_list :
+  idtab -> ((nat * assoc_kw) * name) list -> ruledef list -> (front_error,
+  vrule list) sum
+
+type visited = { vs_tab : idtab; vs_max : z;
+                 vs_prelist : ((nat * assoc_kw) * name) list;
+                 vs_rules : vrule list; vs_start : name;
+                 vs_code : ascii list; vs_union : ascii list;
+                 vs_rest : ascii list }
+
+val visit : ast -> (front_error, visited) sum
+
+type gsym = { s_name : name; s_value : z; s_tag : name; s_declnt : bool;
+              s_prec : z; s_assoc : assoc0 }
+
+val conv_assoc : assoc_kw -> assoc0
+
+val start_name : name
+
+val dollar_name : name
+
+val ordered_idents : idtab -> ident list
+
+val sym_of_ident : ((nat * assoc_kw) * name) list -> ident -> gsym
+
+val symbols_of : visited -> gsym list
+
+val sym_index_from : gsym list -> name -> nat -> nat option -> nat option
+
+val sym_index : gsym list -> name -> nat option
+
+val map_opt : ('a1 -> 'a2 option) -> 'a1 list -> 'a2 list option
+
+type built = { b_syms : gsym list; b_gi : ginfo;
+               b_rule_prec : nat option list; b_visited : visited }
+
+val build_rule : gsym list -> vrule -> (rule * nat option) option
+
+val is_lhs : rule list -> nat -> bool
+
+val build_grammar : visited -> (front_error, built) sum
+
+val front : ast -> (front_error, built) sum
+
+val nodup_z : z list -> bool
+
+val last_nonzero : (name * z) list -> name -> z option
+
+val dedup_names : name list -> name list
+
+val fixed_codes : (name * z) list -> z list
+
+val valid_codes : (name * z) list -> (name * z) list -> bool
